@@ -202,20 +202,23 @@ def execute(stim):
         return evs
 
     blocks = {}
+    # every other circuit runs with persistent blocks (one more layer around event())
+    persist = len(repr(stim['seq'])) % 2 == 0
 
     def build(circuit):
         for b in range(1, n + 1):
             impl = g['impl'][b - 1]
             iv = stim['init'][b - 1]
+            pk = {'persistent': True} if persist else {}      # (an empty storage: nothing to restore)
             if impl == 'input':
                 blk = edzed.Input(f'n{b}', initdef=iv, on_output=mk_events(b, 'out'),
-                                  on_every_output=mk_events(b, 'every'))
+                                  on_every_output=mk_events(b, 'every'), **pk)
             elif impl == 'counter':
                 blk = edzed.Counter(f'n{b}', modulo=2, initdef=iv, on_output=mk_events(b, 'out'),
-                                    on_every_output=mk_events(b, 'every'))
+                                    on_every_output=mk_events(b, 'every'), **pk)
             elif impl == 'fsm':
                 evs = mk_events(b)
-                blk = Tgl(f'n{b}', initdef=f's{iv}', on_enter_s0=evs, on_enter_s1=evs)
+                blk = Tgl(f'n{b}', initdef=f's{iv}', on_enter_s0=evs, on_enter_s1=evs, **pk)
             elif impl == 'repeat':
                 e = g['edges'][b - 1][0]
                 blk = edzed.Repeat(f'n{b}', dest=f'n{e["to"]}', etype=etype_of(e['to']),
@@ -325,7 +328,7 @@ def execute(stim):
     edzed.SBlock.event = wrapped
     _sim.Circuit.init_sblock = staticmethod(init_wrapped) if is_static else init_wrapped
     try:
-        rt.run_circuit(build, script)
+        rt.run_circuit(build, script, storage={} if persist else None)
     finally:
         edzed.SBlock.event = orig_event
         _sim.Circuit.init_sblock = orig_static
